@@ -177,7 +177,7 @@ class ConfigRun(object):
         if typ in INTS:
             return [str(ch.pick([0, 1, 2, 300, 65535, 1048576], 'iv'))]
         if typ == 'Float':
-            return [ch.pick(['0.6', '1', '0.25'], 'fv')]
+            return [ch.pick(['0.6', '1', '0.25', '30.000000', '-1.000000'], 'fv')]
         if typ in ('String', 'Filename'):
             if ch.chance(1, 3, 'sunset'):
                 return None
@@ -408,6 +408,10 @@ class ConfigRun(object):
                     sim.probe('inplace-edit-of-inflight-option')
                 return
             k = ch.draw(4, 'alen')
+            if ch.chance(1, 40, 'biglist'):
+                # a list with a few hundred elements is still one option, saved by one SETCONF
+                k = 129 + ch.draw(200, 'biglen')
+                sim.probe('list-with-more-than-128-elements')
             new = ['new%d v%d' % (o.version, i) if typ != 'PORT' else str(9100 + o.version * 7 + i) for i in range(k)]
             if new and typ != 'PORT' and self.prop == 'C10' and ch.chance(1, 6, 'padded'):
                 # an item with blanks at its ends: what is sent is the item, not a tidied version of it
@@ -736,7 +740,7 @@ class ConfigRun(object):
         if isinstance(want, bool):
             okv = (got is want) or (got == want and isinstance(got, (bool, int)))
         else:
-            okv = got == want and (type(got) is type(want) or isinstance(want, float))
+            okv = got == want and type(got) is type(want)       # (a Float option reads as a float, whole-numbered or not)
         if not okv:
             if getattr(o, 'early', False):
                 sim.fail(prop + '.stale-bootstrap-value-after-early-conf-changed',
